@@ -33,6 +33,9 @@ def rule_R2(chk, repo):
         get = ci.methods.get('get')
         if not (init and cp and gg and get):
             raise AnalysisError(f'{cname}: __init__/copy_nids/generate_graph/get not all present')
+        from ..canon import canonical, CLASS_L_ROLES
+        cp = canonical(cp, CLASS_L_ROLES)
+        gg = canonical(gg, CLASS_L_ROLES)
         created, cleaves = tb.family_nests(init.node, tb.self_attr_root('self'))
         created.pop('L', None)
         exported, eleaves = tb.family_nests(cp.node, tb.self_attr_root('target', 'nids_'))
